@@ -207,12 +207,9 @@ func owned(rel string) (ownedFile bool, dontCare bool) {
 		return true, false
 	}
 	if base == manifestName {
-		if filepath.Dir(rel) == "." {
-			return true, false
-		}
-		// a manifest in a nested directory belongs to another output directory: the
-		// statement does not say whether it is "its manifest"; either outcome is accepted
-		return false, true
+		// the generator writes its manifest below the target when generating with a package root, and
+		// cleaning recurses with the same rules at every level: a manifest is owned at any depth
+		return true, false
 	}
 	return false, false
 }
